@@ -1034,7 +1034,7 @@ fn main() {
         }
         all.push(json!({"id": k, "case": script_json(&o.script), "observed": o.obs.iter().map(|x| format!("{:?} who={} census={:?} usage={}", x.resp, x.who, x.census, x.usage)).collect::<Vec<_>>()}));
     }
-    let per = 10usize;
+    let per = 5usize;
     let mut shards = 0usize;
     let pre = "From Coq Require Import List NArith Bool.\nFrom Kyro Require Import Model.Quota.\nImport ListNotations.\nOpen Scope N_scope.\n";
     for (k, chunk) in case_texts.chunks(per).enumerate() {
